@@ -239,8 +239,13 @@ def gen_grid_triangle(rng, k, for_matrix):
     fields = sorted(rng.sample(["paid_loss", "reported_loss", "earned_premium"], rng.randint(1, 2 if for_matrix else 1)))
     cells = []
     last_end = starts[-1] + rp - 1
-    for m in metas:
-        for s in starts:
+    # per-slice period sets: in half of the multi-slice Matrix cases every slice lacks ONE period (its first, a middle
+    # or its last one) that the other slices have -- a later-sorting slice then introduces a period the first one lacks
+    per_slice = for_matrix and len(metas) >= 2 and len(starts) >= 2 and k % 2 == 0
+    for si, m in enumerate(metas):
+        for pi, s in enumerate(starts):
+            if per_slice and pi == (si + k // 2) % len(starts):
+                continue
             pe_id = s + rp - 1
             if layout == "fixed_evals":
                 e0 = last_end
@@ -267,6 +272,8 @@ def gen_grid_triangle(rng, k, for_matrix):
                     cells.append(CumulativeCell(period_start=ms(s), period_end=me(pe_id), evaluation_date=ev,
                                                 values=vals, metadata=m))
     rng.shuffle(cells)
+    if per_slice:
+        layout += "+per-slice-periods"
     return Triangle(cells), {"layout": layout, "rp": rp, "re": re_, "inc": inc, "n_slices": len(metas),
                              "fields": fields, "n_cells": len(cells)}
 
@@ -994,6 +1001,23 @@ def directed_probes(ctx, tmp):
                             for i, v in enumerate((va, vb)) for p_ in range(2) for j in range(3)])
             probes.append((f"HASH/matrix/{tag}", tmx, "matrix", mcls))
             probes.append((f"HASH/rich/{tag}", tmx, "rich", mcls))
+    # multi-slice triangles whose slices have different period sets: the slice that sorts first lacks its first / a
+    # middle / its last period (Triangle.periods, is_semi_regular and the matrix sizes must look at ALL cells)
+    scls = {"kind": "matrix_per_slice_period_sets"}
+    for attr, va, vb in [("details", {"s": 1}, {"s": 2}), ("country", "AA", "ZZ"), ("loss_details", {"cov": "a"}, {"cov": "b"})]:
+        for missing in (0, 1, 3):
+            for holder in (0, 1):     # which of the two slices lacks the period
+                cs = []
+                for si, v in enumerate((va, vb)):
+                    for p_ in range(4):
+                        if si == holder and p_ == missing:
+                            continue
+                        for j in range(3):
+                            cs.append(mkc(ms(600 + 3 * p_), me(602 + 3 * p_), me(602 + 3 * p_ + 3 * j), {"paid_loss": 1.0 + si + p_ + 10 * j},
+                                          Metadata(**{attr: v})))
+                tps = Triangle(cs)
+                probes.append((f"SLICEPERIODS/matrix/{attr}/missing{missing}/slice{holder}", tps, "matrix", scls))
+                probes.append((f"SLICEPERIODS/rich/{attr}/missing{missing}/slice{holder}", tps, "rich", scls))
     # family P: evaluation steps whose gcd is smaller than the smallest step; whole periods missing
     pcls = {"kind": "matrix_eval_gcd_smaller_than_step"}
     for nm, (s0, rp_, lags, starts) in [("annual+0+6+15", (576, 12, (0, 6, 15), (0, 12))), ("half-year+0+4+10", (600, 6, (0, 4, 10), (0, 6))),
